@@ -239,7 +239,8 @@ StepCall(e) ==
            vAll == IF \E q \in pres : Violated(e, q, Expected(e, q), r) = {} THEN {} ELSE v IN
        /\ kfs' = kfs
        /\ IF wrong # {}
-          THEN /\ RejectEv({"C20"}, "the call used cache state the configured expiry forbids (or ignored state it must retain)")
+          THEN \* behaves as on the forbidden pre-state: a C20 symptom, and whatever the pinned predicates say
+               /\ RejectEv({"C20"} \cup vAll, "the call behaved as if the entry had expired / been kept against the configured expiry, or lost its state")
                /\ live' = FALSE /\ UNCHANGED << cache, drift >>
           ELSE IF vAll # {}
           THEN /\ RejectEv(vAll, "outcome differs from BlockHandler.tla in a way the property pins")
